@@ -59,6 +59,24 @@ fn replay_json(input: &[(u64, bool)], capacity: usize) -> serde_json::Value {
     json!({"check": "C08", "entries": input.iter().map(|(r, a)| json!([r.to_string(), a])).collect::<Vec<_>>(), "capacity": capacity.to_string()})
 }
 
+/// the oldest `k` entries (by rank) are all accessed, the rest keep their random flags: a long
+/// "hot prefix" that a windowed/partial selection must scan through
+fn hot_prefix(input: &mut [(u64, bool)], r: u64) {
+    let n = input.len();
+    if n == 0 {
+        return;
+    }
+    let mut ranks: Vec<u64> = input.iter().map(|e| e.0).collect();
+    ranks.sort();
+    let k = (r as usize) % (n + 1);
+    let threshold = ranks[k.min(n - 1)];
+    for e in input.iter_mut() {
+        if e.0 <= threshold {
+            e.1 = true;
+        }
+    }
+}
+
 pub fn replay(case: &serde_json::Value) -> Result<(), String> {
     let entries: Vec<(u64, bool)> = case["entries"].as_array().ok_or("entries")?.iter().map(|e| (e[0].as_str().unwrap().parse().unwrap(), e[1].as_bool().unwrap())).collect();
     let capacity: usize = case["capacity"].as_str().ok_or("capacity")?.parse().map_err(|_| "capacity")?;
@@ -126,7 +144,7 @@ pub fn run(ctx: &Ctx) -> Report {
     let cases = ctx.share(ctx.scale(20_000, 300_000)) as u32;
     let strat = (
         prop::collection::vec((any::<u64>(), any::<bool>()), 0..5000),
-        0u8..5, // rank mode
+        0u8..7, // rank mode
         0u8..8, // capacity mode
         any::<u64>(),
     );
@@ -142,6 +160,7 @@ pub fn run(ctx: &Ctx) -> Report {
                 input.reverse()
             }
             4 => input.iter_mut().for_each(|e| e.0 = u64::MAX - (e.0 % 2)),
+            5 | 6 => hot_prefix(&mut input, *capr),
             _ => {}
         }
         let cap = match cmode {
@@ -152,6 +171,7 @@ pub fn run(ctx: &Ctx) -> Report {
             4 => n + 1,
             5 => usize::MAX,
             6 => n / 2,
+            _ if *rmode >= 5 => n.saturating_sub(1 + (*capr as usize >> 8) % 12),
             _ => (*capr as usize) % (n + 2),
         };
         if exploring {
@@ -166,6 +186,7 @@ pub fn run(ctx: &Ctx) -> Report {
                 2 => "random:sorted",
                 3 => "random:reverse-sorted",
                 4 => "random:ranks at u64::MAX",
+                5 | 6 => "random:hot prefix (the oldest entries are all accessed), slightly over capacity",
                 _ => "random:full-width ranks",
             });
             if n >= 1000 {
@@ -187,6 +208,7 @@ pub fn run(ctx: &Ctx) -> Report {
                 input.reverse()
             }
             4 => input.iter_mut().for_each(|e| e.0 = u64::MAX - (e.0 % 2)),
+            5 | 6 => hot_prefix(&mut input, capr),
             _ => {}
         }
         let cap = match cmode {
@@ -197,6 +219,7 @@ pub fn run(ctx: &Ctx) -> Report {
             4 => n + 1,
             5 => usize::MAX,
             6 => n / 2,
+            _ if rmode >= 5 => n.saturating_sub(1 + (capr as usize >> 8) % 12),
             _ => (capr as usize) % (n + 2),
         };
         let (sig, detail) = msg.split_once('|').map(|(a, b)| (a.to_string(), b.to_string())).unwrap_or((String::from("planner:unknown"), msg.clone()));
